@@ -7,7 +7,7 @@
 (*   C48  never more than max(1, maxThreads) body invocations at a time            *)
 (*                                                                                *)
 (* Actions (the observable events of a call)                                      *)
-(*   Call(t)                   thread t enters parallel_for with parameters P      *)
+(*   Call(t, cring)            thread t enters parallel_for with parameters P      *)
 (*   BodyBegin(t, st, b, e)    thread t enters f(states[st], start+b, start+e)     *)
 (*   BodyEnd(t, st, b, e)      ... and leaves it                                   *)
 (*   Return(t, sz)             parallel_for returns; the container has sz elements *)
@@ -185,16 +185,18 @@ InitWith(p) ==
   /\ nst = p.pre /\ peak = 0
 
 \* ------------------------------------------------------------------ actions
-Call(t) ==
+\* cr: PerPoolPerThreadInfo::ringIndex of the calling thread (known when the call is made)
+Call(t, cr) ==
   /\ cph = "idle"
-  /\ LET np == Plan(P) IN
+  /\ P' = [P EXCEPT !.cring = cr]
+  /\ LET np == Plan(P') IN
        /\ pl' = np
        /\ pst' = [q \in 0 .. (np.np - 1) |-> "q"]
        /\ pth' = [q \in 0 .. (np.np - 1) |-> -1]
        \* detail::initStates(states, defaultState, numNeeded, reuseExistingState)
        /\ nst' = IF np.kind = "empty" THEN P.pre ELSE IF P.reuse THEN Max(P.pre, np.ns) ELSE np.ns
   /\ cal' = t /\ cph' = "in"
-  /\ UNCHANGED <<P, active, covered, tailSt, peak>>
+  /\ UNCHANGED <<active, covered, tailSt, peak>>
 
 ChunkOK(q, b, e) ==
   CASE pl.kind \in {"static", "serial"} -> (pst[q] = "q" /\ <<b, e>> = pl.bounds[q])
